@@ -126,9 +126,12 @@ def gen(seed, tier):
                 steps.append({'op': 'bake', 'n': rng.choice([1, 1, 2, 3])})
             elif c < 0.6:
                 steps.append({'op': 'sleep', 's': rng.choice([0.5, 3, 9, 40])})
-            else:
+            elif c < 0.85:
                 steps.append({'op': 'noise', 'acct': rng.randint(0, 2), 'n': rng.choice([1, 2]),
                               'where': rng.choice(['validated', 'validated', 'refused', 'branch_delayed', 'unprocessed'])})
+            else:
+                # an operation of the account itself that is listed by the node but will never take a counter
+                steps.append({'op': 'noise', 'own_stale': True, 'n': rng.choice([1, 2]), 'where': rng.choice(['outdated', 'outdated', 'refused', 'branch_refused', 'branch_delayed'])})
 
     for li in range(nlife):
         tname = rng.choice(enabled_templates)
